@@ -154,6 +154,23 @@ func runC07(c *Ctx) {
 						c.Law(out == "ok:[]", "C07/function-empty-input", "a non-aggregate function yields empty on an empty input", src, out)
 					}
 				}
+				// an empty input is empty whatever the (String) arguments are — also arguments the function would reject
+				// on a non-empty input (a pattern that is no regular expression, a unit that is none, ...)
+				if n >= 1 && !aggregates[name] && funcName(fn.Func) != "funcs.unimplemented" && name != "iif" {
+					for _, sa := range []string{"'['", "'('", "'*'", "'\\\\'", "''", "'(?'", "'x'", "'a{2,1}'", "'lightyears'", "' '"} {
+						sargs := make([]string, n)
+						for i := range sargs {
+							sargs[i] = sa
+						}
+						for _, em := range empties {
+							src := "(" + em + ")." + name + "(" + strings.Join(sargs, ", ") + ")"
+							o := evalSrc(src, copts...)
+							out := outTokens(o)
+							c.Law(out == "ok:[]", "C07/function-empty-input", "a non-aggregate function yields empty on an empty input", src, out)
+							c.Count("fn-odd-string-arg")
+						}
+					}
+				}
 				// an empty ARGUMENT where a single value is required: empty or an error, never a fabricated value
 				if shape.recv != "" && n > 0 {
 					for pos := 0; pos < n; pos++ {
